@@ -53,7 +53,7 @@ for pid, c in claimed.items():
     checks.append({
         'property_id': pid,
         'quick_cmd': '/verif/bin/govc check -p %s -tier quick' % pid,
-        'thorough_cmd': '/verif/bin/govc check -p %s -tier thorough' % pid,
+        'thorough_cmd': '/verif/tools/thorough.sh %s' % pid,
         'evidence_file': '/verif/evidence/%s.json' % pid,
         'replay_cmd_template': '/verif/bin/govc replay {path}',
         'engine': 'govc',
